@@ -16,7 +16,8 @@ Driver glue for C15.
 `<op>`   `w<hex>` write (`w-` = empty) · `q<hex>,<hex>…` writeSequence (`q` = empty list, `-` = empty chunk)
          · `g<seed>.<len>` write of the pattern (seed+i) mod 251 · `L` loseConnection · `H` loseWriteConnection
          · `X` abortConnection · `P` pauseProducing · `R` resumeProducing
-`<ev>`   `D` (sim only: fair rounds until quiescent) · `a<S>:<op>` · `i<S>:<bits ⊆ ioh or ->:<nr>:<nw>` · `t<S>`      (`<S>` = `A` | `B`)
+`<ev>`   `D` (sim only: fair rounds until quiescent) · `S` (sim only: the same with SINGLE-BIT reports — the select /
+         asyncio dispatch: per round IN to A, OUT to A, IN to B, OUT to B, delayed calls; no HUP) · `a<S>:<op>` · `i<S>:<bits ⊆ ioh or ->:<nr>:<nw>` · `t<S>`      (`<S>` = `A` | `B`)
 state token: `<flags of A>/<received>/<pending>/<sent>/<lost>/<readLost>/<writeLost>|<same for B>` with flags =
   connected disconnected disconnecting _writeDisconnecting _writeDisconnected reading writing hasSocket aborting
 -/
@@ -144,15 +145,29 @@ def showConn (c : Conn) : String :=
 
 def showSys (s : Sys) : String := showConn s.a ++ "|" ++ showConn s.b
 
-/-- a schedule item of the driver: one event, or `D` = fair rounds until quiescent -/
-inductive Item | ev (e : Ev) | drain
+/-- a round of a reactor that reports one condition per dispatch (select: `_doReadOrWrite(selectable, "doRead" |
+    "doWrite")`, asyncio: `_readOrWrite(selectable, read)`): IN and OUT are separate reports, there is no HUP bit -/
+def selRound : List Ev :=
+  [.io .A true false false 1000000000 1000000000, .io .A false true false 1000000000 1000000000,
+   .io .B true false false 1000000000 1000000000, .io .B false true false 1000000000 1000000000,
+   .timer .A, .timer .B]
+
+/-- single-bit rounds until quiescent (fuel-bounded) -/
+def runSel : Nat → Sys → Sys
+  | 0, s => s
+  | fuel + 1, s => if s.quiescent then s else runSel fuel (run s selRound)
+
+/-- a schedule item of the driver: one event, `D` = fair rounds until quiescent, `S` = single-bit rounds until
+    quiescent -/
+inductive Item | ev (e : Ev) | drain | drainSel
 
 def decItem (s : String) : Option Item :=
-  if s = "D" then some .drain else (decEv s).map .ev
+  if s = "D" then some .drain else if s = "S" then some .drainSel else (decEv s).map .ev
 
 def stepItem (s : Sys) : Item → Sys
   | .ev e => step s e
   | .drain => runFair 500 s
+  | .drainSel => runSel 500 s
 
 def trace : Sys → List Item → List String → Sys × List String
   | s, [], acc => (s, acc.reverse)
